@@ -106,8 +106,10 @@ func (l *lexer) run() {
 		close(l.token)
 
 		if e := recover(); e != nil {
-			// re-panic
-			panic(e)
+			if _, ok := e.(bailout); !ok {
+				// re-panic
+				panic(e)
+			}
 		}
 	}()
 
@@ -363,7 +365,7 @@ func (l *lexer) emit(typ int) {
 	case verifForceBail:
 		<-l.cancel
 		verifYield(verifBailout, l)
-		panic(nil)
+		panic(bailout{})
 	}
 	select {
 	case l.token <- tok:
@@ -371,7 +373,7 @@ func (l *lexer) emit(typ int) {
 	case <-l.cancel:
 		verifYield(verifBailout, l)
 		// bailout
-		panic(nil)
+		panic(bailout{})
 	}
 }
 
@@ -408,6 +410,10 @@ func (l *lexer) Error(s string) {
 }
 
 type action func() action
+
+// bailout is the panic value used by the lexer goroutine to unwind when
+// lexing was cancelled.
+type bailout struct{}
 
 type token struct {
 	typ int
